@@ -8,17 +8,20 @@ from ..refs import dip_ref as D
 from ..refs import units_ref as R
 
 ID = "C14"
-RULE = ("A target node (bool / int / float of any width / str; scalar, or float array as a separate class; definition or "
-        "declaration; with or without unit) placed at a random depth of a small tree of unrelated nodes, followed by "
-        "1-5 modifications: typed or untyped, unit absent / same / other prefix or unit of the same dimension / a "
-        "custom $unit, values incl. 0, negatives, false, none; addressed by dotted path, by re-entering the groups "
-        "with indentation, or mixed; unrelated definitions interleaved. Model: type and unit of the first occurrence, "
-        "value = last assigned value * F(unit_mod)/F(unit_def) with F from the independent unit reference (custom "
-        "units = value * F(their unit)); exactly one entry per path, in first-appearance order. Failing programs "
-        "(another data type, a literal the type cannot hold, a unit of another dimension, !constant then modify, a "
-        "declaration never assigned) must raise. Non-trivial: >=2 modifications with a unit change, or a falsy final "
-        "Round 4: values assigned by reference to a helper node (also 0 / false), integers beyond 2**53, an earlier parse that defined the custom unit differently. "
-        "value (0, false, none). Distinct = distinct rendered text.")
+RULE = (
+    'A target node (bool / int / float of any width / str; scalar, or float array as a separate class; definition '
+    'or declaration; with or without unit) placed at a random depth of a small tree of unrelated nodes, followed '
+    'by 1-5 modifications: typed or untyped, unit absent / same / other prefix or unit of the same dimension / a '
+    'custom $unit, values incl. 0, negatives, false, none; addressed by dotted path, by re-entering the groups '
+    'with indentation, or mixed; unrelated definitions interleaved. Model: type and unit of the first occurrence, '
+    'value = last assigned value * F(unit_mod)/F(unit_def) with F from the independent unit reference (custom '
+    'units = value * F(their unit)); exactly one entry per path, in first-appearance order. Failing programs '
+    '(another data type, a literal the type cannot hold, a unit of another dimension, !constant then modify, a '
+    'declaration never assigned) must raise. Non-trivial: >=2 modifications with a unit change, or a falsy final '
+    'value (0, false, none). Round 4: values assigned by reference to a helper node (also 0 / false), integers '
+    'beyond 2**53, an earlier parse that defined the custom unit differently. Later rounds: definitions through a '
+    'sliced reference followed by plain re-assignments; declared constants. Distinct = distinct rendered text.'
+)
 ASSUMPTIONS = [
     "integer nodes only receive values whose conversion into the definition unit is an exact integer",
     "empty strings are not assigned (the property lists zero, negative, false and none)",
